@@ -1,10 +1,10 @@
-\* C20 thorough: a comment and a gap deviation
+\* C20 thorough: a gap deviation combined with a comment on the pair shapes
 SPECIFICATION LSpec
 CONSTANTS
   Foci = {"lit"}
   Sizes <- SmallSizes
-  LFoci = {"stmt", "fstmt", "decl", "class", "pairs", "samples"}
-  Bases = {"canon", "nl"}
+  LFoci = {"pairs"}
+  Bases = {"canon"}
   MaxGap = 1
   MaxCm = 1
   CmKinds = {"//", "/*", "/*o", "#"}
